@@ -22,7 +22,8 @@ PROP = "C37"
 ENCODED = ["luna/gateware/usb/usb3/link/receiver.py: HeaderPacketReceiver.elaborate (buffers, acks_to_send, "
            "credits_to_issue, ignore_packets, link command dispatch FSM), RawHeaderPacketReceiver (CHECK_PACKET)"]
 ASSUMPTIONS = [
-    "header packets are well framed (HPSTART + 4 data words) at scripted cycles; all their content is symbolic",
+    "header packets are well framed (HPSTART + 4 data words) at scripted cycles (0, 1, 2 or 3 idle words between them); all "
+    "their content is symbolic",
     "CRC16/CRC5 fields = repo step-function value XOR a free mask (shared CRC definition, C30)",
     "the partner sends a header only while it holds a credit (LCRDs completed by the DUT minus headers accepted >= 1)",
     "retry_received (partner LRTY) only after an LBAD has been transmitted and not yet answered, and not while a "
@@ -359,6 +360,11 @@ def queries(tier):
                     covers=["ignored_then_accepted", "wrong_seq_dropped"],
                     desc="layer: no LRTY/keepalive/LXU requests; 3 symbolic headers (bad header, ignored header, retry, "
                          "wrong sequence number); PHY ready, consumption and retry free"))
+    fb = lambda: HeaderRxHarness(n_packets=2, lead=9, spacing=0)
+    qs.append(Query("bmc_2hp_back_to_back", fb, fb().K, layer=_NO_EXTRA, timeout=900, hints=hint, split=False,
+                    covers=["delivered_k1"],
+                    desc="2 symbolic headers with no idle word between them (the second HPSTART directly follows the first "
+                         "header's last word); PHY ready, consumption and retry free"))
     if not quick:
         qs.append(Query("bmc_3hp_free", f3, f3().K + 6, timeout=1800, covers=[], split=False,
                         desc="3 symbolic headers, everything free, deeper"))
